@@ -44,6 +44,47 @@ def L(v):
     return fm.lin(dict(l[0]), l[1])
 
 
+ASCII_FAMILY = ('pos[', 'used0', 'hc0', 'merged@')
+
+
+def boundary_atom(a):
+    """Is the atom, by its origin, a position between two scalars of the text it indexes?"""
+    if a.startswith('len(') or a.startswith('byteidx@') or a.startswith('prefix@'):
+        return True
+    if a.startswith('pos['):
+        return True                       # index of an ASCII byte found by a search with a constant predicate
+    if a in ('valid0', 'used0', 'hc0', 'ac0') or a.startswith('merged@'):
+        return True                       # struct fields with the inductive boundary invariant (checked at exits)
+    if '@loop' in a and ('(*_1).' in a):
+        return True                       # the same fields re-named at a loop head
+    return False
+
+
+def boundary_form(v, facts=()):
+    """(ok, why): is the linear value a boundary position? constants other than 0 only as +-1 next to an ASCII
+    delimiter (NUL / LF / found ASCII byte) or after an ASCII byte was stored at that index (marker fact)"""
+    l = to_lin(v)
+    if l is None:
+        return False, "index is not a linear form of known positions (%s)" % (v[:2],)
+    items, c = l
+    bad = [a for a, k in items if not boundary_atom(a)]
+    if bad:
+        return False, "index involves %s, which is not a scalar boundary by construction" % bad[0]
+    if c == 0:
+        return True, ''
+    nfam = sum(abs(k) for a, k in items if a.startswith(ASCII_FAMILY) or '@loop' in a)
+    if abs(c) <= nfam:
+        return True, ''       # each found / stored one-byte ASCII delimiter accounts for one byte of offset
+    if c == 1:
+        base = from_lin((items, 0))
+        mark = '$ascii@%s' % (to_lin(base),)
+        if any(mark in fm.atoms_of(f) for f in facts):
+            return True, ''
+    if not items:
+        return (c in (0,)), "constant offset %d" % c
+    return False, "offset %+d from a boundary" % c
+
+
 class Site:
     __slots__ = ('key', 'fn', 'kind', 'span', 'verdicts', 'goals')
 
@@ -54,6 +95,37 @@ class Site:
         self.span = span
         self.verdicts = set()
         self.goals = []
+
+
+def searched_byte(I, clos):
+    """the single byte value b for which the search predicate is true (closure evaluated abstractly), else None"""
+    if clos[0] != 'closure':
+        return None
+    body = I.by_path.get(F.raw_key(clos[1]))
+    if body is None:
+        return None
+    hits = []
+    from ..absint import Interp as _I
+    sub = _I(I.crates, None)
+    env = ('ref', ('const', clos)) if body.body['locals'][1]['ty'].get('k') == 'ref' else clos
+    # the predicate may test `b == c` or `b != c` (rev().position(|&b| b != b' ')): find the byte on which it differs
+    outs = {}
+    for cand in (0x00, 0x0A, 0x0D, 0x20, 0x22, 0x2D, 0x41, 0xC3):
+        try:
+            r = sub.run(body, [env, ('ref', ('const', const_int(cand)))], None, {})
+        except Exception:
+            return None
+        vs = set()
+        for w_, rv in r:
+            vs |= set(rv[1]) if rv[0] == 'int' and rv[2] is None else {0, 1}
+        outs[cand] = vs
+    trues = [c for c, v in outs.items() if v == {1}]
+    falses = [c for c, v in outs.items() if v == {0}]
+    if len(trues) == 1 and len(falses) == len(outs) - 1:
+        return trues[0]
+    if len(falses) == 1 and len(trues) == len(outs) - 1:
+        return falses[0]          # first byte that is NOT c: positions skipped over are all the ASCII byte c
+    return None
 
 
 def cfg_info(fn):
@@ -257,6 +329,9 @@ class E3(object):
         self.sites = sites
         self.assumed = assumed
         self.fresh = 0
+        self.h_compares = []
+        self.last_nb = None
+        self.u4 = {}          # utf8 site key -> list of (ok, why, ctx)
         self.keymap = {}
         self.ctx = ''
         self.notes = []
@@ -426,6 +501,24 @@ class E3(object):
         if cons and not self.feasible(w, cons):
             return None
         return self.add(w, *cons)
+
+    def on_store(self, I, w, depth, place, v, stmt):
+        """remember that a one-byte ASCII constant was stored at a (symbolic) index: the position right after it is a
+        scalar boundary if the index was one (used by the boundary classification of C02.U4)"""
+        n = int_singleton(v) if v[0] == 'int' else None
+        if n is None or n >= 0x80:
+            return None
+        idx = [e for e in place['p'] if e['k'] == 'index']
+        if not idx:
+            return None
+        iv = w.store.get((depth, idx[0]['l']), TOP)
+        l = to_lin(iv)
+        if l is None or not l[0]:
+            return None
+        mark = '$ascii@%s' % (l,)
+        t = I.resolve(w, depth, place)
+        w2 = I.write(w, t, v)
+        return self.add(w2, fm.lin({mark: 1}))
 
     def on_assert(self, I, w, fn, bb, t, depth):
         m = t['msg']
@@ -605,6 +698,13 @@ class E3(object):
             return self.oblige(w, site, None, what), None
         nm = rng[1].rsplit('::', 1)[-1]
         ll = L(ln)
+        self.last_nb = None
+        for x in rng[3]:
+            okb, why = boundary_form(x, w.st) if (is_symbolic(x) or x[0] == 'int') else (False, 'unknown index')
+            if x[0] == 'int' and int_singleton(x) is not None:
+                okb, why = True, ''        # constant offsets are judged by the ASCII tests guarding them (C08 table)
+            if not okb:
+                self.last_nb = why
         if nm == 'RangeTo':
             e = L(rng[3][0])
             w = self.oblige(w, site, [fm.le(e, ll)] if e is not None and ll is not None else None, what + ": end <= len")
@@ -672,6 +772,9 @@ class E3(object):
             if 'unchecked' in p:
                 s = self.site(fn, 'utf8', name, ci.span, ci.bb)
                 s.verdicts.add('delegated:C02')
+                a = args[0]
+                tag = a[1] if a[0] == 'slc' else ''
+                self.u4_record(fn, 'from-bytes', name, ci, '!nb' not in str(tag), str(tag))
             return [(w, args[0])]
         # ---- indexing
         if name in ('index', 'index_mut', 'get_unchecked', 'get_unchecked_mut') and len(args) == 2 and \
@@ -683,6 +786,18 @@ class E3(object):
                 return [self.mk_slc(w2, '?', None, ci)]
             w2, rl = self.range_obligation(w, site, args[1], ln, name)
             tag = args[0][1] if args[0][0] == 'slc' else 'sub'
+            if tag.split('!')[0].split('^')[0] == 'H' and args[1][0] == 'adt':
+                # sub-slices of the history buffer remember how their start was obtained (C10.H5)
+                nm_ = args[1][1].rsplit('::', 1)[-1]
+                st_ = args[1][3][0] if nm_ in ('Range', 'RangeFrom') else const_int(0)
+                l_ = to_lin(st_)
+                origin = 'entry-start' if (l_ is not None and (any(a.startswith('pos[00]') for a, k in l_[0]) or (not l_[0] and l_[1] == 0))) \
+                    else 'computed(%s)' % (fm.fmt(L(st_))[:-5] if L(st_) is not None else '?')
+                tag = tag.split('^')[0] + '^' + origin
+            if self.last_nb and '!nb' not in tag:
+                tag = tag + '!nb(%s at %s)' % (self.last_nb, ci.span.split('/')[-1])
+            if p.startswith('core::str::'):
+                self.u4_record(fn, 'str-slice', name, ci, '!nb' not in tag, tag)
             if args[0][0] == 'ref' and rl is not None and args[1][0] == 'adt' and args[1][1].endswith('RangeTo'):
                 # a prefix of an array cell: keep it addressable for the value-set domain
                 return [(w2, ('sliceref', args[0][1], const_int(0), rl))]
@@ -702,7 +817,8 @@ class E3(object):
             it = args[0]
             if it[0] == 'ref':
                 it = I.read(w, it[1])
-            w2, a = self.new_atom(w, 'pos', ci)
+            byte = searched_byte(I, args[1]) if len(args) > 1 else None
+            w2, a = self.new_atom(w, ('pos[%02X]' % byte) if byte is not None and byte < 0x80 else 'pos', ci)
             if it[0] == 'iterv' and it[1]:
                 pv = ('sym', a)
                 facts = [fm.lt(fm.lin_atom(a), L(x)) for x in it[1] if L(x) is not None]
@@ -742,7 +858,9 @@ class E3(object):
             s_, e, d, ll = L(rng[3][0]), L(rng[3][1]), L(dest), L(ln)
             ok = None not in (s_, e, d, ll)
             goals = [fm.le(s_, e), fm.le(e, ll), fm.le(fm.add(d, fm.add(e, s_, -1)), ll)] if ok else None
-            return [(self.oblige(w, site, goals, "copy_within: start <= end <= len and dest + (end - start) <= len"), UNIT)]
+            w2 = self.oblige(w, site, goals, "copy_within: start <= end <= len and dest + (end - start) <= len")
+            w2 = self.add(w2, fm.lin({'$copy_within%s@%s' % (self._ord(fn, ci), fn.name): 1}))
+            return [(w2, UNIT)]
         if rp.endswith('utils::copy_nonoverlapping') or p.endswith('utils::copy_nonoverlapping'):
             la, lb, n = self.slc_len(I, w, args[0]), self.slc_len(I, w, args[1]), L(args[2])
             site = self.site(fn, 'copy_nonoverlapping', 'len', ci.span, ci.bb)
@@ -818,6 +936,19 @@ class E3(object):
             w, a = self.new_atom(w, 'len(trimmed)', ci)
             facts = [fm.le(fm.lin_atom(a), L(ln))] if ln is not None and L(ln) is not None else []
             return [(self.add(w, *facts), ('slc', 'trimmed', ('sym', a)))]
+        if ci.name in ('eq', 'ne') and tr == 'core::cmp::PartialEq' and len(args) == 2:
+            vals = []
+            for a in args:
+                for _ in range(3):
+                    if a[0] == 'ref':
+                        a = I.read(w, a[1])
+                vals.append(a)
+            tags = [v[1] if v[0] == 'slc' else None for v in vals]
+            if all(t is not None for t in tags):
+                hs = [t for t in tags if t.split('!')[0].split('^')[0] == 'H']
+                if hs and len(hs) == 1:
+                    self.h_compares.append((fn.npath, ci.span, hs[0], self.ctx))
+            return None
         if p == 'core::str::<impl str>::starts_with' and len(args) == 2:
             la, lb = self.slc_len(I, w, args[0]), self.slc_len(I, w, args[1])
             facts = []
@@ -840,6 +971,20 @@ class E3(object):
             site.goals.append("a panicking call is reachable [%s]" % self.ctx)
             return []
         return None
+
+    def u4_record(self, fn, kind, name, ci, ok_, detail):
+        key = "%s|%s|%s|%s" % (fn.npath, kind, name, ci.span.split(':')[-2] if False else self._ord(fn, ci))
+        self.u4.setdefault(key, []).append((ok_, detail, self.ctx, ci.span))
+
+    def _ord(self, fn, ci):
+        n = 0
+        for i, b in enumerate(fn.blocks):
+            t = b['term']
+            if t['k'] == 'call' and t['func'].get('path') == ci.path:
+                if i == ci.bb:
+                    break
+                n += 1
+        return "#%d" % n
 
     def counter_facts(self, I, w, fn, ci, lens, some_branch):
         """counter lemma at the loop's `next`: counters of the enclosing loop are < len (Some) / <= len (None)"""
